@@ -86,6 +86,7 @@ package router
 //@   callsite Router.outboundAllowedTo packet-destination [C06]: arg1 == connKey.remoteIP && !inbound
 // (The next clause FAILS on the current code: the connection table is shared by both directions and a cached verdict
 // is returned without looking at the direction it was decided for - see /verif/KNOWN_FINDINGS.txt, C06.)
+//@   callsite atomic.Uint32.Store a-verdict-is-stored-only-for-a-new-connection [C06]: !ok
 //@   callsite atomic.Uint32.Load cached-verdict-was-decided-for-this-direction [C06]: connState.inbound == inbound
 
 // A packet from the mesh reaches the tun device only if the frame unsealed under the sender's session, the inner
